@@ -53,6 +53,7 @@ def run(ctx):
                 feats[k] = feats.get(k, 0) + v
         # code -> spec: the order in which real flushes, statements and recoveries touch pages, header and log (WalOrder.tla):
         # every dirty page before the header, the header promising LSNs and pages beyond everything written, nothing unlogged on disk
+        storelib.walorder_design(ctx, cov)
         seeds = [ctx.seed * 1000 + 400 + i for i in range(3 if ctx.quick() else 12)]
         storelib.random_runs(ctx, pool, cov, [dict(seed=sd, n=(200 if ctx.quick() else 500), caps=([3, 3] if i % 2 == 0 else []), cache=0, pcrash=0.05,
                                                    pflush=0.3, pfail=0.25, wal=False, maxrows=(5 if i % 2 == 0 else 20)) for i, sd in enumerate(seeds)])
